@@ -52,8 +52,10 @@ func (s *sessionMetadatasState) mergeSessions(sessions []*api.SessionMetadatas) 
 	return nil
 }
 func (s *sessionMetadatasState) dump(event *api.StateBroadcastEvent) {
-	sessions := s.All()
-	for _, session := range sessions {
+	s.mu.Lock()
+	defer s.mu.Unlock()
+	// removed entries are part of the state: a peer that missed a removal needs them
+	for _, session := range s.sessions {
 		session := session // the event keeps a pointer to each entry
 		event.SessionMetadatas = append(event.SessionMetadatas, &session)
 	}
